@@ -353,7 +353,7 @@ def check_main(engine, prop, argv):
     return rc
 
 
-def _check(engine, prop, tier, seed, jobs, args, t0):
+def _check(engine, prop, tier, seed, jobs, args, t0, early_stop=True):
     build.prepare()
     engine.setup(prop, tier)
     plan = engine.plan(prop, tier)
@@ -407,8 +407,8 @@ def _check(engine, prop, tier, seed, jobs, args, t0):
                 agg['errors'].extend(out['errors'])
                 if len(agg['samples']) < 3:
                     agg['samples'].extend(out['samples'])
-                if any(v[2]['oracle'] in ('stall', 'hang') and match_known(known, v[2]) is None
-                       for v in agg['violations']):
+                if early_stop and any(v[2]['oracle'] in ('stall', 'hang') and match_known(known, v[2]) is None
+                                      for v in agg['violations']):
                     # a run that does not terminate: every other worker is likely to meet the same input and
                     # cannot be interrupted while it is inside C code -- stop here with what we have
                     truncated = True
@@ -531,6 +531,13 @@ def _check(engine, prop, tier, seed, jobs, args, t0):
 
     for idx, path in agg.get('hang_reports', []):
         reported.append({'oracle': 'hang', 'replay': path, 'run': idx, 'signature': 'hang'})
+
+    if stalled and not reported and not harness_unconfirmed:
+        # the batch was cut short for a stall that did not confirm (a busy machine): nothing has been decided yet --
+        # run it again, this time to the end whatever stalls
+        print('  the batch was stopped for an unconfirmed stall; running it again without the early stop')
+        sys.stdout.flush()
+        return _check(engine, prop, tier, seed, jobs, args, t0, early_stop=False)
 
     for e in known:
         if e.get('status') == 'known':
